@@ -87,14 +87,14 @@ class CJob:
         return ok
 
 
-def run_native(driver_c, sources_inc, incs, defs=(), args=(), asan=True, stdin=None, timeout=120):
+def run_native(driver_c, sources_inc, incs, defs=(), args=(), asan=True, stdin=None, timeout=120, extra_cflags=()):
     """compile a generated driver (which #includes the real .c files) with ASan/UBSan and run it"""
     td = tempfile.mkdtemp(prefix='vf_native_')
     try:
         src = os.path.join(td, 'driver.c'); exe = os.path.join(td, 'driver')
         open(src, 'w').write(driver_c)
         cmd = ['clang-14', '-g', '-O0', '-w'] + (['-fsanitize=address,undefined', '-fno-sanitize-recover=all'] if asan else [])
-        cmd += ['-I' + i for i in incs] + ['-D' + d for d in defs] + ['-o', exe, src]
+        cmd += ['-I' + i for i in incs] + ['-D' + d for d in defs] + list(extra_cflags) + ['-o', exe, src]
         p = subprocess.run(cmd, capture_output=True, text=True)
         if p.returncode: return None, 'COMPILE FAILED\n' + p.stderr[-3000:]
         p = subprocess.run([exe] + [str(a) for a in args], capture_output=True, text=True, timeout=timeout, input=stdin,
@@ -107,12 +107,12 @@ def run_native(driver_c, sources_inc, incs, defs=(), args=(), asan=True, stdin=N
 _OFFS = {}
 
 
-def offsets(prelude, exprs, incs, defs=()):
+def offsets(prelude, exprs, incs, defs=(), extra_cflags=()):
     """offsetof/sizeof values computed by the compiler from the working tree headers: {expr: value}"""
-    key = (prelude, tuple(exprs), tuple(defs))
+    key = (prelude, tuple(exprs), tuple(defs), tuple(extra_cflags))
     if key in _OFFS: return _OFFS[key]
     body = prelude + '\n#include <stdio.h>\n#include <stddef.h>\nint main(void){\n' + ''.join('printf("%%lu\\n", (unsigned long)(%s));\n' % e for e in exprs) + 'return 0;}\n'
-    rc, out = run_native(body, None, incs, defs, asan=False)
+    rc, out = run_native(body, None, incs, defs, asan=False, extra_cflags=extra_cflags)
     if rc != 0: raise core.HarnessError('offset helper failed: %s' % out[-1500:])
     vals = [int(x) for x in out.split()]
     _OFFS[key] = dict(zip(exprs, vals))
